@@ -55,6 +55,10 @@ def gen(rng, small=False):
     amp = int(rng.choice([1, 3, 20, 400]))
     bg = int(rng.choice([0, 2, 50]))
     aa = bool(rng.integers(0, 2))
+    if rng.random() < 0.12:
+        # a background beyond the float32 integer range (2**24): sharp disk with an even amplitude, so that every pixel value is
+        # exactly representable in float32 and the premise 'flat disk on a uniform background' holds exactly
+        bg, amp, aa = int(rng.choice([30000000, -30000000, 2 ** 25])), int(rng.choice([20, 400])), False
     return dict(desc=desc, radius=radius, shape=(fy, fx), p=p, off=off, amp=amp, bg=bg, aa=aa)
 
 
@@ -223,6 +227,22 @@ def run(ctx):
     ctx.extra['theorem_hypotheses_checked_by_computation'] = {'masks_centro_symmetric': '%d of %d' % (nsym, len(hv)), 'maximum_lemma_applicable': cover}
     ctx.obligation('K:C01 csymb (hypothesis of C01_fft_product_is_cross_correlation) holds for the implementation\'s mask in all %d sampled cases' % len(hv), nsym == len(hv), '%d fail' % (len(hv) - nsym))
 
+    # (S) fixed grid for the upsampling clause: every pattern class x small radii x upsampling factors, disk well inside
+    for kind in KINDS:
+        for radius in (3.0, 4.0, 5.5):
+            for ups in (True, 5, 10, 20):
+                search = radius + 2.5
+                ro = radius * 1.5 if kind in ('BackgroundSubtraction', 'RadialGradientBackgroundSubtraction') else None
+                if ro is not None:
+                    search = max(search, ro)
+                ut = (int(2 * math.ceil(radius) + 1),) * 2 if kind == 'UserTemplate' else None
+                pattern, desc = make(kind, radius, search, ro, ut)
+                cs = pattern.get_crop_size()
+                c = dict(desc=desc, radius=radius, shape=(4 * cs + 7, 4 * cs + 10), p=(2 * cs + 3, 2 * cs + 4), off=(1, -1), amp=20, bg=2, aa=True)
+                fail = stmt_failure(c, ups)
+                ctx.count(2, key=('grid', kind, radius, ups))
+                if fail:
+                    ctx.violation('input', fail, {'kind': 'input', 'call': 'process_frames_fast/full', 'args': {'case': c, 'upsample': ups}, 'failure': fail}, signature=classify(fail, c))
     # (S) the statement
     n = 0
     tries = 0
